@@ -5,8 +5,19 @@ import StraxModel.Lemmas.DividerTerm
 
   All theorems quantify over every configuration `c` (any number of subscribers, any program of the
   source, any capacity, lazy or eager, any driver mask, workers, killers) and every state reachable in the
-  transition system of Model/Mailbox.lean, i.e. every schedule.  The invariant behind them is
-  `Strax.Mailbox.Inv` (Lemmas/Mailbox.lean).
+  transition system of Model/Mailbox.lean (one mailbox) or Model/Divider.lean (`divide_outputs` feeding several
+  mailboxes), i.e. every schedule.  Invariants: `Inv`, `ProgInv`, `LiveInv`, `measure` (Lemmas/Mailbox*.lean),
+  `DInv`, `DProgInv`, `DLiveInv`, `dmeasure` (Lemmas/Divider*.lean).
+
+  On the hypotheses (why no theorem here carries `_partial`): the decidable predicates are the property's own
+  conditions, not restrictions of its quantifier.  `Config.valid` / `DConfig.valid` = "the messages that were sent":
+  a source that neither fails nor yields the end marker, nobody calls `kill` (failures are C06's property), message
+  numbers exactly `0 … n-1`.  `Config.live` = "capacity of at least one", "at least one driver" in lazy mode, "futures
+  completed by concurrent workers", in-order sends; `Config.liveOoo` = "the capacity exceeds their largest
+  displacement" for explicitly numbered sends (eager: strax has no gate in front of a direct `send(msg, msg_number)`,
+  so lazy + explicit numbers is not a configuration of the real code).  `DConfig.live` is the same for dividers
+  (a driver for every gated output).  The safety theorems (`capacity_inv`, `delivery_prefix`, `no_lost_wakeup`,
+  `divide_delivery_prefix`) have no hypothesis at all.  `lazy_out_of_order_old_rule_counterexample` is a witness.
 -/
 namespace Strax.C05
 open Strax Strax.Mailbox
@@ -70,7 +81,7 @@ covered by the safety theorems only); `live` excludes out-of-order numbering; `l
 combination "lazy mailbox + explicit out-of-order numbers" is outside both on purpose: in strax the fetch gate is in
 `_send_from` / `divide_outputs`, which number in order, and a direct `send(msg, msg_number=…)` passes no gate, so no real
 configuration puts explicit numbers behind a lazy gate (the harness refuses it too).  In the model that combination
-deadlocks under the gate rule as found (`lazy_out_of_order_old_rule_deadlock`, a witness) and not under the
+deadlocks under the gate rule as found (`lazy_out_of_order_old_rule_counterexample`, a witness) and not under the
 repaired rule (`Strax.Mailbox.gate_contra_hasMsg`).  Termination is `bounded_runs` / `no_infinite_execution` /
 `terminates` below. -/
 theorem deadlock_free (c : Config) (hv : c.valid = true) (hl : c.live = true ∨ c.liveOoo = true) (s : Sys)
@@ -148,7 +159,7 @@ def oooLazyOldCfg : Config :=
 
 /-- the excluded combination is a real deadlock of the code as found: lazy mailbox, gate rule `lowest`,
 messages 1 then 0 — after `1` is buffered, `waiting_for = 0 <= lowest = 1` makes `_can_fetch` refuse for ever -/
-theorem lazy_out_of_order_old_rule_deadlock :
+theorem lazy_out_of_order_old_rule_counterexample :
     ∃ s, Reachable oooLazyOldCfg s ∧ s.final = false ∧ s.enabled = [] := by
   have hrun : ∃ s, run? (init oooLazyOldCfg)
       [.sender, .reader 0, .sender, .sender, .sender, .sender, .reader 0] = some s ∧ s.final = false ∧ s.enabled = [] := by
